@@ -39,7 +39,7 @@ DEFAULT_PROFILE = dict(
     shifts=(0.0, 0.0, 30.0, 150.0, -30.0, 180.0), tap_types=(None, "Ratio", "Symmetrical", "Ideal"),
     custom_index=True, sn_choices=(1.0, 1.0, 10.0, 100.0, 0.5, 1000.0),
     scaling=True, gen_qlims=True, line_g=True, line_parallel=True, df=True, leakage=True,
-    tap2=False, trafo_oltc_cols=False, gen_qlim_range=(0.02, 0.4),
+    tap2=False, trafo_oltc_cols=False, gen_qlim_range=(0.02, 0.4), resistive_shunts=False,
 )
 
 
@@ -198,6 +198,8 @@ def bus_element(draw, kind, vn, p, shift_deg=0.0):
             d.update(min_q_mvar=-pw(lo, hi), max_q_mvar=pw(lo, hi))
     elif kind == "shunt":
         d.update(q_mvar=pw(-0.3, 0.3), p_mw=pw(0, 0.05) if draw(st.integers(0, 1)) else 0.0)
+        if p.get("resistive_shunts") or draw(st.integers(0, 7)) == 0:
+            d.update(q_mvar=0.0, p_mw=pw(0.01, 0.2))      # purely resistive shunt
         if draw(st.integers(0, 2)) == 0:
             d["step"] = draw(st.integers(0, 3))
             d["max_step"] = 3
@@ -205,6 +207,8 @@ def bus_element(draw, kind, vn, p, shift_deg=0.0):
             d["vn_kv"] = round(vn * draw(st.sampled_from([0.95, 1.05, 1.1])), 6)
     elif kind == "ward":
         d.update(ps_mw=pw(0, 0.3), qs_mvar=pw(-0.1, 0.1), pz_mw=pw(0, 0.2), qz_mvar=pw(-0.1, 0.1))
+        if p.get("resistive_shunts"):
+            d.update(qz_mvar=0.0, pz_mw=pw(0.01, 0.2))
     elif kind == "xward":
         zb = vn ** 2 / S
         d.update(ps_mw=pw(0, 0.3), qs_mvar=pw(-0.1, 0.1), pz_mw=pw(0, 0.2), qz_mvar=pw(-0.1, 0.1),
